@@ -99,12 +99,28 @@ impl Driver {
         Driver { app, base, elapsed: Duration::ZERO, reader: Default::default() }
     }
 
-    /// Runs one frame whose delta is exactly `delta`; returns the events sent during the frame.
+    /// The virtual clock is paused / resumed (`Time::pause`): while paused, `Time::delta()` is zero although real
+    /// time passes.
+    pub fn set_paused(&mut self, paused: bool) {
+        let mut t = self.app.world.resource_mut::<Time>();
+        if paused { t.pause() } else { t.unpause() }
+    }
+
+    /// `Time::set_relative_speed`: `Time::delta()` is the real frame time scaled by this factor.
+    pub fn set_speed(&mut self, speed: f32) {
+        self.app.world.resource_mut::<Time>().set_relative_speed(speed);
+    }
+
+    /// The delta the systems of the last frame saw (`Time::delta()`).
+    pub fn last_delta(&self) -> Duration {
+        self.app.world.resource::<Time>().delta()
+    }
+
+    /// Runs one frame whose real (raw) delta is exactly `delta`; returns the events sent during the frame.
     pub fn frame(&mut self, delta: Duration) -> Vec<(Entity, AnimationState)> {
         self.elapsed += delta;
         let now = self.base + self.elapsed;
         self.app.world.resource_mut::<Time>().update_with_instant(now);
-        debug_assert_eq!(self.app.world.resource::<Time>().delta(), delta);
         self.app.update();
         let events = self.app.world.resource::<Events<AnimationStateChanged>>();
         self.reader.iter(events).map(|e| (e.entity, e.state)).collect()
